@@ -557,7 +557,9 @@ class Parser:
             return "\t", index
         if ch == "u":
             codepoint, index = self._decode_hex_char(value, index, token)
-            return self._string_from_codepoint(codepoint, token), index
+            # Any code point may be written as an escape, control characters
+            # included. Only raw control characters are invalid.
+            return chr(codepoint), index
 
         raise JSONPathSyntaxError(
             f"unknown escape sequence at index {token.index + index - 1}",
